@@ -17,7 +17,7 @@ from pymbolic.mapper.evaluator import CachedEvaluationMapper, EvaluationMapper
 from pbt import envs, strategies as S, walk
 from pbt.refsem import RefSkip, compare_with_ref, ref_eval
 from pbt.runner import Result
-from pbt.spec import build
+from pbt.spec import twin_first, twin_how, build
 
 PROP = "C02"
 LEVEL = "exploration"
@@ -92,6 +92,10 @@ def _classify(res, e, ref):
 def check_eval(spec):
     res = Result()
     e = build(spec["expr"])
+    if twin_first(spec["expr"], twin_how(spec["expr"]),
+                  *[lambda t, fn=fn: fn(t, envs.build_env(spec["env"], envs.CallCounter()))
+                    for _, fn in VARIANTS]):
+        res.label("twin-first")
     try:
         ref = _one(res, e, spec["env"])
     except RefSkip as s:
